@@ -1,16 +1,17 @@
 #!/bin/bash
-# tools/confirm_seed.sh <worktree> <seed-id> <property>: confirm a seeded change independently and store it under /verif/seeded/<seed-id>/
+# tools/confirm_seed.sh <worktree> <seed-id> <property>: confirm a seeded change independently (from its mutation.diff, applied to a
+# clean checkout of the worktree; no git stash: the stash is shared between worktrees) and store it under /verif/seeded/<seed-id>/
 wt=$1; sid=$2; prop=$3
 cd $wt || exit 2
+[ -s mutation.diff ] || { echo "no mutation.diff in $wt"; exit 2; }
+cp mutation.diff /tmp/confirm_$sid.diff
+git checkout -q -- src
 [ -f src/mqtt/_version.py ] || echo '__version__ = version = "0.0.0+scratch"' > src/mqtt/_version.py
-git diff -- src > /tmp/confirm_$sid.diff
-[ -s /tmp/confirm_$sid.diff ] || { echo "no source change applied in $wt"; exit 2; }
-suite=$(PYTHONPATH=$wt/src /venv/bin/python -m pytest -q -p no:cacheprovider --timeout=900 --continue-on-collection-errors 2>&1 | tail -1)
-PYTHONPATH=$wt/src timeout 300 /venv/bin/python demo.py > /tmp/confirm_$sid.with 2>&1; rc_with=$?
-git stash -q
 base=$(PYTHONPATH=$wt/src /venv/bin/python -m pytest -q -p no:cacheprovider --timeout=900 --continue-on-collection-errors 2>&1 | tail -1)
 PYTHONPATH=$wt/src timeout 300 /venv/bin/python demo.py > /tmp/confirm_$sid.without 2>&1; rc_without=$?
-git stash pop -q
+git apply /tmp/confirm_$sid.diff || { echo "mutation.diff does not apply"; exit 2; }
+suite=$(PYTHONPATH=$wt/src /venv/bin/python -m pytest -q -p no:cacheprovider --timeout=900 --continue-on-collection-errors 2>&1 | tail -1)
+PYTHONPATH=$wt/src timeout 300 /venv/bin/python demo.py > /tmp/confirm_$sid.with 2>&1; rc_with=$?
 echo "suite with change: $suite | without: $base | demo rc with=$rc_with without=$rc_without"
 ok=1
 echo "$suite" | grep -q "24 failed, 85 passed" || ok=0
@@ -22,5 +23,5 @@ if [ $ok -eq 1 ]; then
   tail -3 /tmp/confirm_$sid.with | cut -c1-300 > $d/demo_output_with_change.txt
   echo "CONFIRMED -> $d"
 else
-  echo "NOT CONFIRMED"
+  echo "NOT CONFIRMED"; rm -rf /verif/seeded/$sid
 fi
